@@ -26,7 +26,7 @@ FOUR = ("ansi", "postgres", "tsql", "bigquery")
 
 
 def universe():
-    u = common.fx_cases(4000) + common.mx_cases(1, 4000, start=70) + common.rc_cases() + common.jj_cases(900, "lintable", FOUR) + common.ph_cases(300, True) + common.py_cases(200, True)
+    u = common.fx_cases(4000) + common.mx_cases(1, 4000, start=70) + common.rc_cases() + common.jj_cases(900, "lintable", FOUR) + common.jj_cases(120, "loopsep", FOUR) + common.ph_cases(300, True) + common.py_cases(200, True)
     out = []
     for i, c in enumerate(u):
         c = dict(c)
